@@ -90,6 +90,7 @@ EXHAUSTIVE = {
     'C14': ['derived'],     # both classes, both entry points, 0..=0x10FFFF + boundary values: decision list over the UCD oracle incl. has_compat == (NFKC(cp) != cp)
     'C01': ['derived'],     # no panic in classification for any scalar / surrogate / boundary value (has_compat is outside the verified set)
     'C08': ['lower_valid', 'derived'],
+    'C09': ['bidi_probe'],
 }
 # which executable clause set of the replay tool belongs to a property
 NATIVE_SET = {'C08': 'C08known'}
